@@ -5,6 +5,7 @@ package asm
 import (
 	"fmt"
 
+	"github.com/ohler55/ojg/alt"
 	"github.com/ohler55/ojg/jp"
 )
 
@@ -45,7 +46,8 @@ top:
 		if 0 < len(tv) {
 			if name, _ := tv[0].(string); 0 < len(name) {
 				if af := NewFn(name); af != nil {
-					af.Args = tv[1:]
+					// Compile a copy so the plan itself is left as it was.
+					af.Args, _ = alt.Dup(tv[1:]).([]any)
 					af.compile()
 					value = af
 					goto top
